@@ -3,6 +3,7 @@ C38 — Bot-API file ids round-trip for every file id value.
 Property theorems only (helper lemmas live in TdModel/Lemmas).
 -/
 import TdModel.Lemmas.C38
+import TdModel.Lemmas.Bin
 
 namespace TdModel.C38
 open TdModel TdModel.Bin
@@ -12,6 +13,12 @@ theorem rle_roundtrip (s : Bytes) : rleDecode (rleEncode s) = s := by
   unfold rleDecode rleEncode
   rw [rleDec_rleEnc s 0 (by omega)]
   simp
+
+/-- The loop body of `rleEncode` obtained from the source by symbolic execution (`rleEnc`, what
+the driver runs and `rle_roundtrip` is about) is the readable transliteration `rleEncRef`; and
+`rleDecode` is the pinned loop. -/
+theorem rle_source_is_ref (s : Bytes) : rleEncode s = rleEncRef 0 s ∧ Facts.C38.rleDecodeShape = true :=
+  ⟨rleEnc_eq_ref s 0 (by omega), by decide⟩
 
 /-- The pre-fix encoder (byte counter wrapping at 256) loses a run of 256 zeros. -/
 theorem rle_wrap_counterexample :
@@ -34,6 +41,85 @@ theorem fileid_roundtrip (f : FileID) (hc : f.canon) : decodeRaw (encodeRaw f) =
   simp [Facts.C38.persistentIDVersionOld, Facts.C38.persistentIDVersionMap, persistentIDVersion,
     Facts.C38.persistentIDVersion, decodeLatest_roundtrip f hc]
   omega
+
+/-- `EncodeFileID` is injective on canonical file ids: two different values never share a string. -/
+theorem encode_injective (f g : FileID) (hf : f.canon) (hg : g.canon) (h : encodeRaw f = encodeRaw g) : f = g := by
+  have h1 := fileid_roundtrip f hf
+  have h2 := fileid_roundtrip g hg
+  rw [h] at h1
+  rw [h1] at h2
+  exact Except.ok.inj h2
+
+/-- `DecodeFileID` never panics, for ANY byte string (after base64): with the index and slice
+expressions of `DecodeFileID` / `decodeLatestFileID` made explicit (`data[len(data)-1]`,
+`data[:len(data)-1]`, `b.Buf[len(b.Buf)-1]` on Go `int`s, third outcome `panic`), the result is
+always the `ok`/`err` result of the total model — in particular every legacy sub-version (< 32,
+< 22, < 4) and every truncation decodes to a value or an error. -/
+theorem decode_total (data : Bytes) :
+    decodeRawP data = POut.ofExcept (decodeRaw data) ∧ decodeRawP data ≠ POut.panic := by
+  refine ⟨decodeRawP_eq data, ?_⟩
+  rw [decodeRawP_eq]
+  cases decodeRaw data <;> simp [POut.ofExcept]
+
+/-- …and the field reads underneath (`bin.Buffer.Uint32/Long/Bytes`) never panic either. -/
+theorem reads_never_panic (b : Bytes) :
+    getU32P b ≠ Out.panic ∧ getU64P b ≠ Out.panic ∧ getBytesP b ≠ Out.panic := by
+  rw [getU32P_eq, getU64P_eq, getBytesP_eq]
+  exact ⟨Out.ofExcept_ne_panic _, Out.ofExcept_ne_panic _, Out.ofExcept_ne_panic _⟩
+
+/-- Error classes of `DecodeFileID` on the RLE-decoded data `d`: fewer than 2 bytes → "too small";
+version byte 2 or 3 → "unsupported"; any version byte other than 2, 3, 4 → "unknown version". -/
+theorem decode_error_classes (data : Bytes) :
+    ((rleDecode data).length < 2 → decodeRaw data = .error .tooSmall) ∧
+    (∀ v, 2 ≤ (rleDecode data).length → (rleDecode data).getLast? = some v →
+      ((v = 2 ∨ v = 3) → decodeRaw data = .error .unsupported) ∧
+      ((v ≠ 2 ∧ v ≠ 3 ∧ v ≠ 4) → decodeRaw data = .error .unknownVersion)) := by
+  refine ⟨?_, ?_⟩
+  · intro h; simp [decodeRaw, h]
+  · intro v hl hv
+    have hnl : ¬ (rleDecode data).length < 2 := by omega
+    refine ⟨?_, ?_⟩
+    · intro h
+      rcases h with rfl | rfl <;>
+        simp [decodeRaw, hnl, hv, Facts.C38.persistentIDVersionOld, Facts.C38.persistentIDVersionMap]
+    · intro ⟨h2, h3, h4⟩
+      have e2 : ¬ v.toNat = 2 := fun h => h2 (UInt8.toNat_inj.mp (by simpa using h))
+      have e3 : ¬ v.toNat = 3 := fun h => h3 (UInt8.toNat_inj.mp (by simpa using h))
+      have e4 : ¬ v.toNat = 4 := fun h => h4 (UInt8.toNat_inj.mp (by simpa using h))
+      simp [decodeRaw, hnl, hv, Facts.C38.persistentIDVersionOld, Facts.C38.persistentIDVersionMap,
+        persistentIDVersion, Facts.C38.persistentIDVersion, e2, e3, e4]
+
+/-- The ids built by `FromDocument` (whatever the attribute list), `FromPhoto` and `FromChatPhoto`
+from in-range API values are canonical, hence survive `EncodeFileID`/`DecodeFileID`. -/
+theorem constructors_roundtrip :
+    (∀ attrs dc id ah ref, dc < 2 ^ 32 → id < 2 ^ 64 → ah < 2 ^ 64 → List.length ref < 2 ^ 24 →
+      decodeRaw (encodeRaw (fromDocument attrs dc id ah ref)) = .ok (fromDocument attrs dc id ah ref)) ∧
+    (∀ thumb dc id ah ref, thumb < 2 ^ 32 → dc < 2 ^ 32 → id < 2 ^ 64 → ah < 2 ^ 64 → List.length ref < 2 ^ 24 →
+      decodeRaw (encodeRaw (fromPhoto thumb dc id ah ref)) = .ok (fromPhoto thumb dc id ah ref)) ∧
+    (∀ big peer ah dc pid, peer < 2 ^ 64 → ah < 2 ^ 64 → dc < 2 ^ 32 → pid < 2 ^ 64 →
+      decodeRaw (encodeRaw (fromChatPhoto big peer ah dc pid)) = .ok (fromChatPhoto big peer ah dc pid)) :=
+  ⟨fun attrs dc id ah ref h1 h2 h3 h4 => fileid_roundtrip _ (fromDocument_canon attrs dc id ah ref h1 h2 h3 h4),
+   fun thumb dc id ah ref h0 h1 h2 h3 h4 => fileid_roundtrip _ (fromPhoto_canon thumb dc id ah ref h0 h1 h2 h3 h4),
+   fun big peer ah dc pid h0 h1 h2 h3 => fileid_roundtrip _ (fromChatPhoto_canon big peer ah dc pid h0 h1 h2 h3)⟩
+
+/-- The wire programs regenerated from the source on this run, spelled out: field order and
+widths of `encodeLatestFileID` / `decodeLatestFileID` (`(cond, kind, field)`, see Model/C38.lean)
+and the rows of the two `switch`es over the photo size source type.  The model INTERPRETS the
+regenerated tables; this theorem pins them to the layout the proofs were written for (TDLib's
+file-id layout), so a reordered, dropped or re-typed field breaks here with a readable diff. -/
+theorem wire_tables_spec :
+    Facts.C38.encLatest = [(0, 4, 0), (0, 4, 1), (1, 1, 2), (2, 1, 3), (2, 9, 0), (0, 8, 4), (0, 8, 5), (3, 7, 6), (0, 2, 7)] ∧
+    Facts.C38.decLatest = [(0, 4, 0), (0, 4, 1), (1, 1, 2), (2, 1, 3), (2, 9, 0), (0, 8, 4), (0, 8, 5), (4, 9, 0), (0, 7, 6), (0, 9, 0)] ∧
+    Facts.C38.encPhotoTypes = [0, 2, 1] ∧ Facts.C38.decPhotoTypes = [0, 2, 1] ∧
+    Facts.C38.pssEncodeHead = [(0, 4, 0)] ∧
+    Facts.C38.pssEncodeSwitch =
+      [([0], [(0, 8, 3)]), ([1], [(0, 4, 4), (0, 4, 5)]), ([3, 2], [(0, 8, 6), (0, 8, 7)]), ([4], [(0, 8, 8), (0, 8, 9)]),
+       ([5], [(0, 8, 1), (0, 8, 3), (0, 4, 2)]), ([7, 6], [(0, 8, 6), (0, 8, 7), (0, 8, 1), (0, 4, 2)]),
+       ([8], [(0, 8, 8), (0, 8, 9), (0, 8, 1), (0, 4, 2)]), ([9], [(0, 8, 8), (0, 8, 9), (0, 4, 10)])] ∧
+    Facts.C38.pssDecodeSwitch = Facts.C38.pssEncodeSwitch ∧
+    Facts.C38.pssDecode =
+      [(32, 8, 1), (22, 8, 3), (22, 4, 2), (22, 9, 0), (4256, 4, 0), (256, 6, 0), (22032, 4, 2), (256, 9, 0)] := by
+  decide
 
 /-- Non-vacuity of `fileid_roundtrip`: a photo with a 300-zero file reference and a legacy
 dialog-photo source, and a web document, are canonical. -/
